@@ -1165,6 +1165,13 @@ class Interp:
                 gets = [(a.f if isinstance(a, Arr) else (lambda k, a=a: a[k])) for a in it.arrs]
                 return [tuple(g(k) for g in gets) for k in range(min(ns))]
             return None
+        if type(it).__name__ == 'SymRows':
+            df = it.df
+            n = concrete_int(df.n if df.n is not None else 0)
+            if n is not None and n <= 64:
+                from .libmodel import Row
+                return [(df.index.f(k), Row(df, k)) for k in range(n)]
+            return None
         if isinstance(it, Seg) and it.kind == 'list' and all(not isinstance(s, Family) for s in it.segs):
             out = []
             for s in it.segs:
@@ -1192,9 +1199,26 @@ class Interp:
                 if not (z3.is_true(z3.simplify(n == hi))):
                     self.require('zip-equal-length', n == hi, kind='shape')
             item = tuple(a.f(k) for a in it.arrs)
+        elif type(it).__name__ == 'SymRows':
+            from .libmodel import Row
+            df = it.df
+            extra_guard = None
+            comps = [c.comp for c in df.cols.values() if isinstance(c, Arr)] + [df.index.comp]
+            if comps and all(c is not None for c in comps) and all(c[1] is comps[0][1] for c in comps):
+                # rows of a filtered frame: iterate over the rows of the original frame under the filter
+                # (boolean-mask selection preserves order, A2)
+                mask = comps[0][1]
+                base = DF(mask.n, df.index.comp[0], {nm: c.comp[0] for nm, c in df.cols.items()})
+                lo, hi = z3.IntVal(0), lift(mask.n)
+                item = (base.index.f(k), Row(base, k))
+                extra_guard = to_bool(mask.f(k))
+            else:
+                lo, hi = z3.IntVal(0), lift(df.n if df.n is not None else 0)
+                item = (df.index.f(k), Row(df, k))
         else:
             raise Unsupported('symbolic loop over ' + type(it).__name__)
-        lc = LoopCtx(k, z3.And(k >= lo, k < hi), st.lineno)
+        lc = LoopCtx(k, z3.And(k >= lo, k < hi) if not (type(it).__name__ == 'SymRows' and extra_guard is not None)
+                     else z3.And(k >= lo, k < hi, extra_guard), st.lineno)
         # loop-carried names: read before written in the body, and assigned in the body
         carried = loop_carried(st)
         for nm in carried['names']:
@@ -1438,9 +1462,11 @@ class Interp:
                 key = lift(l['cell'][1])
                 val = lift(l['val'])
                 guard = l['guard']
-                lo, hi = loop_bounds(guard, k)
+                lo, hi, rest = loop_bounds(guard, k, with_rest=True)
                 if lo is None or hi is None:
                     raise Unsupported('accumulation bounds')
+                # the range conjuncts are the summation bounds; only the other guards go into the summand
+                guard = z3.And(*[z3.simplify(r) for r in rest if not z3.is_true(z3.simplify(r))]) if rest else z3.BoolVal(True)
                 pv = z3.Int(fresh_name('cell'))
                 sym.SCOPE.append(pv)
                 try:
@@ -1951,26 +1977,32 @@ def solve_unit(expr, v, target):
     return z3.simplify(target - e)
 
 
-def loop_bounds(guard, k):
-    """recover lo <= k < hi from a conjunction (syntactic)"""
+def loop_bounds(guard, k, with_rest=False):
+    """recover lo <= k < hi from a conjunction (syntactic); optionally also the remaining conjuncts"""
     lo = hi = None
+    rest = []
     stack = [guard]
     while stack:
         g = stack.pop()
         if z3.is_and(g):
-            stack.extend(g.children())
+            stack.extend(reversed(g.children()))
             continue
+        hit = False
         if z3.is_app(g) and g.num_args() == 2:
             a, b = g.children()
             kd = g.decl().kind()
-            if kd == z3.Z3_OP_GE and a.eq(k):
-                lo = b
-            elif kd == z3.Z3_OP_LT and a.eq(k):
-                hi = b
-            elif kd == z3.Z3_OP_LE and b.eq(k):
-                lo = a
-            elif kd == z3.Z3_OP_GT and b.eq(k):
-                hi = a
+            if kd == z3.Z3_OP_GE and a.eq(k) and lo is None:
+                lo, hit = b, True
+            elif kd == z3.Z3_OP_LT and a.eq(k) and hi is None:
+                hi, hit = b, True
+            elif kd == z3.Z3_OP_LE and b.eq(k) and lo is None:
+                lo, hit = a, True
+            elif kd == z3.Z3_OP_GT and b.eq(k) and hi is None:
+                hi, hit = a, True
+        if not hit and not z3.is_true(g):
+            rest.append(g)
+    if with_rest:
+        return lo, hi, rest
     return lo, hi
 
 
